@@ -44,6 +44,23 @@ type provRef struct {
 	// Defined: every function the reference tree defines (as a callee id) – a call of a
 	// function that is not among them is a call of a new helper
 	Defined []string `json:"defined"`
+	// Types: the Go signature of every function the reference tree defines, by callee id and by function key –
+	// a function whose signature changed (a helper that now takes the set instead of the digest) is a
+	// different function under the old name: neither it nor the calls of it are compared
+	Types map[string]string `json:"types"`
+}
+
+func signatureTable(p *Program) map[string]string {
+	out := map[string]string{}
+	for _, f := range p.Funcs {
+		if f.Object() != nil {
+			if o, ok := f.Object().(*types.Func); ok {
+				out["S:"+o.FullName()] = typeKey(f.Signature)
+			}
+		}
+		out[FuncName(f)] = typeKey(f.Signature)
+	}
+	return out
 }
 
 // definedCallees: callee ids of all source functions of the program.
@@ -447,7 +464,27 @@ func (w *provWalker) walk(v ssa.Value, depth int) {
 				}
 			}
 		}
+		if sc := x.Call.StaticCallee(); sc != nil && isErrorConstructor(sc) {
+			// an error that is built here: which error it wraps and which status code it carries is what
+			// it is; how the message is worded, and what is quoted in it, is not (StatusWrap ↔ StatusWrapf)
+			// wrapping an error (more context, same error, same code) leaves it the error it was
+			if !(sc.Pkg != nil && sc.Pkg.Pkg.Path() == modPath+"/pkg/util" && (sc.Name() == "StatusWrap" || sc.Name() == "StatusWrapf")) {
+				w.roots["c:error"] = true
+			}
+			for _, a := range errCtorInputs(x.Common()) {
+				if k, isK := stripConv(a).(*ssa.Const); isK && k.Value != nil && k.Value.Kind() == constant.Int {
+					w.roots["code:"+k.Value.String()] = true
+					continue
+				}
+				w.walk(a, depth)
+			}
+			return
+		}
 		id := calleeID(x.Common())
+		if capacityHintCallee[id] {
+			w.roots["c:"+id] = true
+			return
+		}
 		if !strings.HasPrefix(id, "B:") {
 			w.roots["c:"+id] = true
 		}
@@ -486,7 +523,8 @@ func (w *provWalker) walk(v ssa.Value, depth int) {
 			w.roots["fn:literal"] = true
 		}
 	case *ssa.MakeMap, *ssa.MakeSlice, *ssa.MakeChan:
-		w.roots["make"] = true
+		// freshly allocated, like a nil slice or map that is appended to: where the room comes from
+		// (and how much is reserved up front) is no input
 	case *ssa.Next:
 		w.walk(x.Iter, depth)
 	case *ssa.Range:
@@ -502,6 +540,58 @@ func (w *provWalker) walk(v ssa.Value, depth int) {
 			}
 		}
 	}
+}
+
+// capacityHintCallee: constructors whose only argument is a capacity hint (how much room to reserve
+// up front changes no result).
+var capacityHintCallee = map[string]bool{
+	"S:" + modPath + "/pkg/digest.NewSetBuilder": true,
+}
+
+// errCtorInputs: the arguments of an error constructor that determine which error it is – wrapped
+// errors and the status code; message, format and the values quoted in the message are left out.
+func errCtorInputs(cc *ssa.CallCommon) []ssa.Value {
+	var out []ssa.Value
+	for _, a := range cc.Args {
+		t := a.Type()
+		if isErrorType(t) {
+			out = append(out, a)
+			continue
+		}
+		if n, ok := t.(*types.Named); ok && n.Obj().Pkg() != nil && n.Obj().Pkg().Path() == "google.golang.org/grpc/codes" {
+			out = append(out, a)
+			continue
+		}
+		// variadic arguments of fmt.Errorf: an error among them may be wrapped (%w); what a gRPC status
+		// quotes in its message is message
+		if sc := cc.StaticCallee(); sc == nil || sc.Pkg == nil || sc.Pkg.Pkg.Path() != "fmt" {
+			continue
+		}
+		if sl, ok := stripConv(a).(*ssa.Slice); ok {
+			if al, ok := sl.X.(*ssa.Alloc); ok {
+				if refs := al.Referrers(); refs != nil {
+					for _, r := range *refs {
+						ia, ok := r.(*ssa.IndexAddr)
+						if !ok || ia.Referrers() == nil {
+							continue
+						}
+						for _, q := range *ia.Referrers() {
+							if st, ok := q.(*ssa.Store); ok && st.Addr == ssa.Value(ia) {
+								v := st.Val
+								if mi, ok := v.(*ssa.MakeInterface); ok {
+									v = mi.X
+								}
+								if isErrorType(v.Type()) {
+									out = append(out, v)
+								}
+							}
+						}
+					}
+				}
+			}
+		}
+	}
+	return out
 }
 
 func provOf(fn *ssa.Function, use ssa.Instruction, v ssa.Value) string {
@@ -584,7 +674,7 @@ func collectProv(p *Program, pkgs []string) map[string]map[string][]provSite {
 							// what the skip rules look at
 							return
 						}
-						if bo, ok := cond.(*ssa.BinOp); ok {
+						if bo, ok := cond.(*ssa.BinOp); ok && condKind(cond) != "loop" {
 							// which quantities are compared – not against which small number
 							// (loop bounds and counters are respelled freely)
 							a, b := provOf(g, ins, bo.X), provOf(g, ins, bo.Y)
@@ -651,10 +741,17 @@ func collectProv(p *Program, pkgs []string) map[string]map[string][]provSite {
 							judged = true
 						}
 					}
-					if !judged {
+					if !judged || capacityHintCallee[id] {
 						return
 					}
 					var parts []string
+					if sc := cc.StaticCallee(); sc != nil && isErrorConstructor(sc) {
+						for _, a := range errCtorInputs(cc) {
+							parts = append(parts, provOf(g, cl, a))
+						}
+						add("ERR", strings.Join(parts, " ; "), cl.Pos())
+						return
+					}
 					if cc.IsInvoke() {
 						parts = append(parts, provOf(g, cl, cc.Value))
 					}
@@ -700,6 +797,7 @@ func genProvReference(repo string) error {
 		ref.Defined = append(ref.Defined, id)
 	}
 	sort.Strings(ref.Defined)
+	ref.Types = signatureTable(p)
 	b, _ := json.MarshalIndent(ref, "", " ")
 	if err := os.MkdirAll(refDir, 0o755); err != nil {
 		return err
@@ -745,10 +843,14 @@ func runProvDrift(c *Ctx, pkgs []string) {
 		fks = append(fks, fk)
 	}
 	sort.Strings(fks)
+	curTypes := signatureTable(c.Program)
 	for _, fk := range fks {
 		rf, known := ref.Funcs[fk]
 		if !known {
 			continue
+		}
+		if rt, ok := ref.Types[fk]; ok && curTypes[fk] != "" && rt != curTypes[fk] {
+			continue // the function's own signature changed: its parameters are not what they were
 		}
 		if strings.Join(ref.Sigs[fk], "|") != strings.Join(provSigs[fk], "|") && !gateOpen(ref.Sigs[fk], provSigs[fk], refDefined, curDefined) {
 			continue // a helper was extracted or inlined: the provenance of every site changes shape, not judged
@@ -773,6 +875,9 @@ func runProvDrift(c *Ctx, pkgs []string) {
 			want, ok := rf[id]
 			if !ok || len(want) != len(cur[fk][id]) {
 				continue // sites were added, removed or moved: not judged
+			}
+			if rt, known := ref.Types[id]; known && curTypes[id] != "" && rt != curTypes[id] {
+				continue // the callee's signature changed: what it is handed is necessarily different
 			}
 			wild := false
 			for _, t := range want {
@@ -829,6 +934,8 @@ func runProvDrift(c *Ctx, pkgs []string) {
 				what = "a field (" + short + ") is assigned a value it is never assigned"
 			case id == "MAPKEY":
 				what = "a map is indexed with a key it is never indexed with"
+			case id == "ERR":
+				what = "an error is built from an error or a status code it is never built from"
 			}
 			c.Fail(fk, "same-inputs "+short, c.Pos(bad.pos), fmt.Sprintf("%s on the reference tree (the function has the same number of such sites and the same calls): now built from {%s}; on the reference tree {%s} – a different variable, field or result is used", what, bad.tuple, strings.Join(was, " | ")))
 		}
